@@ -314,3 +314,71 @@ func init() {
 	register(&Profile{Name: "reconcile", Prop: "C13", Weight: 1, Custom: runC13, Oracles: OracleSet{Property: "C13"},
 		Build: func(seed uint64, tier string) *RunConfig { return genC13(seed, tier, "reconcile") }})
 }
+
+// checkReconcileSpacing (L2): the real reconciler, watchers and leader
+// subscriber feed the real queue; the instant a reconciliation reaches the
+// worker is decided by the limiter alone. Two reconciliations of one kind
+// (full, partial) keep at least 1/--rate-limit-update between them. Not judged:
+// the retry after a failed reconciliation (RequeueAfter(reload-retry) by design)
+// and everything before the start-up sync point.
+func (r *Run) checkReconcileSpacing() {
+	if r.lastArrival == nil {
+		r.lastArrival = map[bool]time.Time{}
+	}
+	kind := !r.thisFullItem // the queue item, not what the converter made of it
+	prev, seen := r.lastArrival[kind]
+	prevBehind := r.lastBehind[kind]
+	failedBefore := r.lastFailed
+	// a reconciliation that waited behind a busy worker reached it later than the limiter
+	// granted; only an arrival at an idle worker is the limiter's own instant
+	behind := !r.curArrival.After(r.lastFinish)
+	r.lastArrival[kind] = r.curArrival
+	if r.lastBehind == nil {
+		r.lastBehind = map[bool]bool{}
+	}
+	r.lastBehind[kind] = behind
+	r.lastFailed = r.cur.failed
+	r.lastFinish = time.Now()
+	if !r.startupDone || !seen || failedBefore || r.cur.failed || prevBehind || r.Cfg.Ctl.RateLimitUpdate <= 0 {
+		return
+	}
+	min := time.Duration(float64(time.Second) / r.Cfg.Ctl.RateLimitUpdate)
+	gap := r.curArrival.Sub(prev)
+	r.probe("c13_l2_spacing_checked")
+	if gap < min-time.Millisecond {
+		name := map[bool]string{true: "partial", false: "full"}[kind]
+		r.violate(&Violation{Property: "C13", Oracle: "spacing-l2", Class: "spacing:reconcile-l2:" + name,
+			Witness: fmt.Sprintf("reconciliation #%d (%s) reached the worker %v after the previous %s one, minimum is %v (rate-limit-update=%v)", r.reconciles, name, gap, name, min, r.Cfg.Ctl.RateLimitUpdate)})
+	}
+}
+
+func init() {
+	// L2: every producer of reconciliations (watchers, class and gateway events, the leader subscriber) in one run
+	register(&Profile{Name: "producers-l2", Prop: "C13", Weight: 1,
+		Oracles: OracleSet{Property: "C13", Spacing: true},
+		Build: func(seed uint64, tier string) *RunConfig {
+			r := cfgRng(seed)
+			mn, mx := tierOps(tier, 8, 24)
+			ctl := sampleCtl(r)
+			ctl.Acme = true // brings the leadership seam in; no acme ingress is generated
+			rc := &RunConfig{Property: "C13", Profile: "producers-l2", Seed: seed, Ctl: ctl, MapOrder: false, Lagfree: r.IntN(2) == 0}
+			w := map[string]int{"ing_update": 10, "ing_ann": 6, "ep_scale": 8, "class_change": 4, "global_change": 2, "renotify": 4, "advance": 12}
+			rc.World, rc.Ops = GenerateRun(seed, GenOptions{Sparse: true, IngressKeys: []string{"balance-algorithm", "timeout-server"}, GlobalKeys: []string{"timeout-client"},
+				MinOps: mn, MaxOps: mx, QuiesceEvery: 6, KeysPerRun: 2, W: w})
+			// lease changes at arbitrary points of the history
+			var ops []Op
+			leader := false
+			for _, op := range rc.Ops {
+				ops = append(ops, op)
+				if r.IntN(4) == 0 {
+					leader = !leader
+					ops = append(ops, Op{Type: "leader", Note: fmt.Sprint(leader)})
+					if r.IntN(2) == 0 {
+						ops = append(ops, Op{Type: "advance", Ms: []int{1, 20, 100, 400, 900}[r.IntN(5)]})
+					}
+				}
+			}
+			rc.Ops = ops
+			return rc
+		}})
+}
